@@ -338,13 +338,29 @@ func (g *histGen) replay(kind int) (idopt val.V, topics []string, script val.V) 
 	return
 }
 
-func finiteOp(g *histGen, kind int) val.V {
+var topicPool = []string{"", "a", "b", "c", "t"}
+
+// randTopics overrides the topic list of half of the random operations with a random
+// ordered list of 1-3 topics (intersections at every relative position).
+func randTopics(r *rng.R, topics []string) []string {
+	if r == nil || len(topics) == 0 || r.Bool() {
+		return topics
+	}
+	n := 1 + r.Intn(3)
+	out := make([]string, n)
+	for i := range out {
+		out[i] = topicPool[r.Intn(len(topicPool))]
+	}
+	return out
+}
+
+func finiteOp(g *histGen, kind int, r *rng.R) val.V {
 	if kind < opRepNewest {
 		id, tok, topics := g.put(kind)
-		return val.L(val.N(0), id, val.N(tok), val.Strs(topics))
+		return val.L(val.N(0), id, val.N(tok), val.Strs(randTopics(r, topics)))
 	}
 	id, topics, script := g.replay(kind)
-	return val.L(val.N(1), id, val.Strs(topics), script)
+	return val.L(val.N(1), id, val.Strs(randTopics(r, topics)), script)
 }
 
 // enumerate all sequences of abstract ops of the given length over the alphabet
@@ -397,7 +413,7 @@ func genFinite(c *Ctx) {
 					g := &histGen{auto: auto}
 					ops := make([]val.V, len(seq))
 					for i, k := range seq {
-						ops[i] = finiteOp(g, k)
+						ops[i] = finiteOp(g, k, nil)
 					}
 					c.Count(fmt.Sprintf("exhaustive:len%d", length))
 					c.Emit(val.L(val.Int(n), val.Bool(auto), val.List(ops)))
@@ -416,7 +432,7 @@ func genFinite(c *Ctx) {
 		l := 1 + c.R.Intn(maxOps)
 		ops := make([]val.V, l)
 		for j := range ops {
-			ops[j] = finiteOp(g, weightedOp(c.R))
+			ops[j] = finiteOp(g, weightedOp(c.R), c.R)
 		}
 		c.Count("random")
 		c.Count(fmt.Sprintf("random:cap%d", n))
@@ -425,16 +441,16 @@ func genFinite(c *Ctx) {
 }
 
 // valid: abstract ops additionally: GC and clock advances (applied before the op)
-func validOp(g *histGen, kind int, now int64) val.V {
+func validOp(g *histGen, kind int, now int64, r *rng.R) val.V {
 	switch {
 	case kind == -1:
 		return val.L(val.N(2), val.Z(now))
 	case kind < opRepNewest:
 		id, tok, topics := g.put(kind)
-		return val.L(val.N(0), val.Z(now), id, val.N(tok), val.Strs(topics))
+		return val.L(val.N(0), val.Z(now), id, val.N(tok), val.Strs(randTopics(r, topics)))
 	default:
 		id, topics, script := g.replay(kind)
-		return val.L(val.N(1), val.Z(now), id, val.Strs(topics), script)
+		return val.L(val.N(1), val.Z(now), id, val.Strs(randTopics(r, topics)), script)
 	}
 }
 
@@ -469,7 +485,7 @@ func genValid(c *Ctx) {
 					vops := make([]val.V, length)
 					for i, ai := range idx {
 						now += alphabet[ai].adv
-						vops[i] = validOp(g, alphabet[ai].op, now)
+						vops[i] = validOp(g, alphabet[ai].op, now, nil)
 					}
 					c.Count(fmt.Sprintf("exhaustive:len%d", length))
 					c.Emit(val.L(val.Z(ttl), val.Bool(auto), gci, val.List(vops)))
@@ -528,7 +544,7 @@ func genValid(c *Ctx) {
 			default:
 				k = weightedOp(c.R)
 			}
-			vops[j] = validOp(g, k, now)
+			vops[j] = validOp(g, k, now, c.R)
 		}
 		c.Count("random")
 		c.Emit(val.L(val.Z(ttlv), val.Bool(auto), gci, val.List(vops)))
